@@ -24,7 +24,12 @@ var junkNumbers = []string{"NaN", "nan", "Inf", "-Inf", "+inf", "1e999", "-1e999
 func corrupt(r *rand.Rand, text string) string {
 	lines := strings.Split(text, "\n")
 	pick := func() int { return r.Intn(len(lines)) }
-	switch r.Intn(23) {
+	switch r.Intn(24) {
+	case 23: // a long malformed line that is mostly multi-byte characters (more bytes than characters, around 200 and far beyond)
+		long := []string{strings.Repeat("ж", 130), strings.Repeat("茶", 80), strings.Repeat("🍵", 60), strings.Repeat("щ", 700), strings.Repeat("é", 101)}[r.Intn(5)]
+		bad := []string{"  " + long + ": 1oo", "  " + long, "  x: " + long, "  - " + long + " " + long + ": 1,5"}[r.Intn(4)]
+		i := pick()
+		lines = append(lines[:i+1], append([]string{bad}, lines[i+1:]...)...)
 	case 22: // odd category paths: trailing, leading or doubled separators in an entry or heading name
 		for try := 0; try < 10; try++ {
 			i := pick()
